@@ -712,6 +712,155 @@ static void run_iter(const char* subj, Rng& g, long nops, std::size_t block, Mak
     emit(fmt("%s destroy", subj), "done", "-");
 }
 
+//=== memory_arena driven directly (C05: exactly-once LIFO release; C08: ownership; C12: moves) ===//
+template <class Arena, class Make>
+static void run_arena(Rng& g, long nops, std::size_t block, Make make)
+{
+    constexpr bool cached = Arena::is_cached::value;
+    using Cache = detail::memory_arena_cache<cached>;
+    alignas(Arena) static unsigned char buf[2][sizeof(Arena)];
+    int    cur = 0;
+    Arena* a = nullptr;
+    auto   cache_str = [&](Arena& x, std::true_type) { return blocks(((detail::memory_arena_cache<true>&)x).cached_); };
+    auto   cache_str0 = [&](Arena&, std::false_type) { return std::string("[]"); };
+    auto   state = [&] {
+        std::string c;
+        if constexpr (cached)
+            c = cache_str(*a, std::true_type{});
+        else
+            c = cache_str0(*a, std::false_type{});
+        return fmt("used=%s cached=%s src=%s", blocks(a->used_).c_str(), c.c_str(),
+                   SrcStr<typename Arena::allocator_type>::str(a->get_allocator()).c_str());
+    };
+    (void)sizeof(Cache);
+    a = make(buf[0]);
+    emit(fmt("arena new %zu %d", block, cached ? 1 : 0), "done", state());
+    std::vector<memory_block> held; // blocks handed out by allocate_block(), oldest first
+    for (long i = 0; i < nops; ++i)
+    {
+        unsigned k = g.below(100);
+        if (k < 38 && a->next_block_size() > (std::size_t(1) << 20))
+            k = 50; // the growing source doubles with every block: keep the history inside the instrumented region
+        if (k < 38)
+        {
+            memory_block b;
+            std::string  res = guarded([&] { b = a->allocate_block(); });
+            if (res.empty())
+            {
+                // the usable block lies inside an upstream block and is disjoint from the blocks handed out before
+                for (auto& h : held)
+                    if (!(static_cast<char*>(b.memory) + b.size <= static_cast<char*>(h.memory)
+                          || static_cast<char*>(h.memory) + h.size <= static_cast<char*>(b.memory)))
+                        O->fail(fmt("memory_arena::allocate_block returned [%zu,+%zu) overlapping a block it handed out before", R->off(b.memory), b.size));
+                if (!a->owns(b.memory) || !a->owns(static_cast<char*>(b.memory) + b.size - 1))
+                    O->fail("memory_arena does not own the block it has just handed out");
+                auto cb = a->current_block();
+                if (cb.memory != b.memory || cb.size != b.size)
+                    O->fail("memory_arena::current_block() differs from the block allocate_block() returned");
+                std::memset(b.memory, 0x40 + int(held.size() % 32), b.size);
+                held.push_back(b);
+                res = fmt("blk %zu %zu", R->off(b.memory), b.size);
+                ++n_ok;
+            }
+            else
+                ++n_throw;
+            emit("arena alloc_block", res, state());
+        }
+        else if (k < 62)
+        {
+            if (held.empty())
+                continue;
+            auto b = held.back();
+            // the content of every held block is still what was written (nothing was handed out twice or touched)
+            for (std::size_t q = 0; q < held.size(); ++q)
+                for (std::size_t z = 0; z < held[q].size; z += 97)
+                    if (static_cast<unsigned char*>(held[q].memory)[z] != (unsigned char)(0x40 + int(q % 32)))
+                    {
+                        O->fail(fmt("content of arena block %zu changed at byte %zu", q, z));
+                        break;
+                    }
+            held.pop_back();
+            a->deallocate_block();
+            if (a->owns(b.memory))
+                O->fail("memory_arena still owns a block after deallocate_block()");
+            emit("arena dealloc_block", "done", state());
+        }
+        else if (k < 70)
+        {
+            a->shrink_to_fit();
+            emit("arena shrink", "done", state());
+        }
+        else if (k < 80)
+        { // C08: ownership probes: inside / at the edges of a held block, a released block, foreign memory
+            char* p = nullptr;
+            int   expect = -1; // 1 owned, 0 not owned, -1 only compared with the model
+            if (!held.empty() && g.chance(60))
+            {
+                auto& h = held[g.below(held.size())];
+                switch (g.below(4))
+                {
+                case 0: p = static_cast<char*>(h.memory); expect = 1; break;
+                case 1: p = static_cast<char*>(h.memory) + h.size - 1; expect = 1; break;
+                case 2: p = static_cast<char*>(h.memory) + g.below(h.size); expect = 1; break;
+                default: p = static_cast<char*>(h.memory) + h.size; break;
+                }
+            }
+            else
+            {
+                p = static_cast<char*>(R->ptr(8 + 16 * g.below(8)));
+                expect = 0;
+            }
+            bool r = a->owns(p);
+            if (expect == 1 && !r)
+                O->fail(fmt("C08 memory_arena::owns: a byte of a block it handed out is not recognised (%zu)", R->off(p)));
+            if (expect == 0 && r)
+                O->fail(fmt("C08 memory_arena::owns claims foreign memory (%zu)", R->off(p)));
+            emit(fmt("arena owns %zu", R->off(p)), r ? "true" : "false", state());
+        }
+        else if (k < 90)
+        {
+            emit("arena size", fmt("num %zu", a->size()), state());
+            emit("arena cache_size", fmt("num %zu", a->cache_size()), state());
+            emit("arena capacity", fmt("num %zu", a->capacity()), state());
+            emit("arena next_block_size", fmt("num %zu", a->next_block_size()), state());
+            if (a->size() != held.size())
+                O->fail(fmt("memory_arena::size() is %zu, %zu blocks are outstanding", a->size(), held.size()));
+            if (a->capacity() != a->size() + a->cache_size() || (!cached && a->cache_size() != 0))
+                O->fail("memory_arena: capacity() != size() + cache_size()");
+        }
+        else
+        { // C12: move construction / move assignment onto a fresh arena; the object left behind is destroyed
+            std::string before = state();
+            int         to = 1 - cur;
+            bool        assign = g.chance(50);
+            if (assign)
+            {
+                Arena* n = make(buf[to]);
+                *n = std::move(*a);
+                a->~Arena();
+                a = n;
+            }
+            else
+            {
+                Arena* n = ::new (static_cast<void*>(buf[to])) Arena(std::move(*a));
+                a->~Arena();
+                a = n;
+            }
+            cur = to;
+            emit(assign ? "arena move_assign" : "arena move", "done", state());
+            if (state() != before)
+                O->fail(fmt("memory_arena after a move: state `%s`, before `%s`", state().c_str(), before.c_str()));
+            for (auto& h : held)
+                if (!a->owns(h.memory))
+                    O->fail("memory_arena: the new owner does not own a block handed out before the move");
+        }
+        if (!O->failures.empty())
+            break;
+    }
+    a->~Arena();
+    emit("arena destroy", "done", "-");
+}
+
 int main(int argc, char** argv)
 {
     if (argc < 4)
@@ -933,6 +1082,30 @@ int main(int argc, char** argv)
                     emit(fmt("src bad_dealloc_block %zu %zu", region.off(b.memory), b.size), out, srcstr());
                 }
             }
+        }
+    }
+    else if (subject.rfind("arena-", 0) == 0)
+    {
+        bool fixed = subject.find("-fixed-") != std::string::npos, cached = subject.find("uncached") == std::string::npos;
+        if (fixed && cached)
+        {
+            using A = memory_arena<fixed_block_allocator<RegionAlloc>, true>;
+            run_arena<A>(g, nops, block, [&](void* mem) { return ::new (mem) A(block, RegionAlloc(region)); });
+        }
+        else if (fixed)
+        {
+            using A = memory_arena<fixed_block_allocator<RegionAlloc>, false>;
+            run_arena<A>(g, nops, block, [&](void* mem) { return ::new (mem) A(block, RegionAlloc(region)); });
+        }
+        else if (cached)
+        {
+            using A = memory_arena<growing_block_allocator<RegionAlloc>, true>;
+            run_arena<A>(g, nops, block, [&](void* mem) { return ::new (mem) A(block, RegionAlloc(region)); });
+        }
+        else
+        {
+            using A = memory_arena<growing_block_allocator<RegionAlloc>, false>;
+            run_arena<A>(g, nops, block, [&](void* mem) { return ::new (mem) A(block, RegionAlloc(region)); });
         }
     }
     else if (subject == "static")
